@@ -16,18 +16,14 @@ CLAUSES = {
     0: None,
     3: "gcxs_getitem_unsigned_indices",
     4: "D21_gcxs_several_index_arrays",
-    5: "D22_gcxs_0d_or_none_with_only_ints",
     9: "outside_grammar",
-    10: "D27_gcxs_none_with_1d_result",
-    11: "D28_gcxs_none_after_int",
     12: "D26_all_ints_with_ellipsis_not_last_returns_scalar",
     13: "D29_empty_bool_index_on_nonempty_axis",
     14: "D30_multi_array_mask_unchecked_out_of_bounds_access",
     15: "input_not_wellformed",
     16: "dok_array_key_not_for_every_axis",
 }
-# decided on the Python side (the dtype of an index array is not part of the Coq index literal)
-NARROW = "narrow_dtype_index_array_overflow"
+
 KINDS = {1: "representation", 2: "value", 3: "value", 4: "value", 5: "value", 6: "value", 7: "value", 8: "harness",
          9: "spec"}
 KIND_WHAT = {1: "representation differs from the model", 2: "shape or elements differ from NumPy",
@@ -611,7 +607,8 @@ def api_cases(tier, seed):
             cases.append({"base": base, "op": op, "index": inst, "cls": "op:" + "".join(dpat)})
     # inputs produced from SciPy matrices written down as (data, indices, indptr)
     cases.extend(scipy_cases(rng, tier))
-    # index arrays of a narrow dtype on an axis whose extent does not fit that dtype (posify_index / check_index)
+    # index arrays of a narrow dtype on an axis whose extent does not fit that dtype (posify_index casts to intp
+    # since fix 5e6e40f: ordinary cases now)
     long1 = {"shape": [200], "coords": [[0], [5], [100], [199]], "data": [1, 2, 3, 4], "fill": 0, "caxes": None}
     long2 = {"shape": [2, 200], "coords": [[0, 5], [1, 100], [1, 199]], "data": [2, 3, 4], "fill": 0, "caxes": [0]}
     for fmt in ("coo", "gcxs", "dok"):
@@ -822,9 +819,7 @@ def campaign_index(build, tier, seed, report, budget=1):
         c, r = kept[i]
         mdiff, code = code // 1000, code % 1000
         kind, cl = code % 10, code // 10
-        narrow = (cl == 0 and r["out"].get("cls") == "OverflowError"
-                  and any(e[0] == "a" and isinstance(e[2], str) for e in c["index"]))
-        if mdiff and cl not in (9,) and not narrow:     # (the dtype of an index array is not modelled)
+        if mdiff and cl not in (9,):
             viol.append({"property": "C02", "op": "getitem", "kind": "representation",
                          "clause": CLAUSES.get(cl, f"clause{cl}"),
                          "what": "the model does not reproduce the implementation's answer on an out-of-domain case",
@@ -837,9 +832,6 @@ def campaign_index(build, tier, seed, report, budget=1):
         what = KIND_WHAT.get(kind)
         vkind = KINDS.get(kind, "value")
         clause_name = CLAUSES.get(cl, f"clause{cl}")
-        if cl == 0 and r["out"].get("cls") == "OverflowError" and any(e[0] == "a" and isinstance(e[2], str) for e in c["index"]):
-            clause_name = NARROW
-            what = "OverflowError for an index array whose (narrow) dtype cannot hold the extent of the axis it indexes"
         if cl == 15:
             vkind = "value" if r.get("agree") is False else "representation"
             what = (("x[index] differs from NumPy on m.toarray(); reason: " if r.get("agree") is False else "") + "the array being indexed is not in canonical form (unsorted or REPEATED entries inside a row, or inconsistent "
